@@ -23,6 +23,7 @@ inductive Op where
   | extMulNorm (a b : Nat)                      -- first coordinate of (a + bX)²  in GL[X]/(X²−7)
   | splitBase4 (a l : Nat)                      -- lowest base-4 limb
   | pub (a : Nat)
+  | connect (a b : Nat)                        -- satisfiable iff equal
 deriving Repr, Inhabited
 
 structure Prog where
@@ -77,6 +78,7 @@ def stepOp (tables : List (List (Nat × Nat))) (v : Array GL) (op : Op) : Option
   | .extMulNorm a b => do let x ← g a; let y ← g b; pure (x * x + GL.ofNat 7 * y * y)
   | .splitBase4 a l => do let x ← g a; if x.val < 4 ^ l then pure (GL.ofNat (x.val % 4)) else none
   | .pub a => g a
+  | .connect a b => do let x ← g a; let y ← g b; if x == y then pure x else none
 
 /-- values of all variables and the public inputs, or `none` if some contract is violated -/
 def evalProg (p : Prog) : Option (Array GL × List GL) :=
